@@ -25,6 +25,7 @@ using namespace datasketches;
 
 template<typename T> struct GenItemC;
 template<> struct GenItemC<int64_t> { static int64_t make(Rng& r, uint64_t dom) { return int64_t(r.below(dom)) - int64_t(dom / 3); } };
+template<> struct GenItemC<double> { static double make(Rng& r, uint64_t dom) { return double(r.below(dom)) * 0.125 - 1e6; } };
 template<> struct GenItemC<std::string> { static std::string make(Rng& r, uint64_t dom) {
   uint64_t x = r.below(dom); std::string s; const size_t len = r.below(r.chance(0.1) ? 30 : 8);
   for (size_t i = 0; i < len; ++i) { s += char('a' + x % 26); x = x / 26 + 11 * (i + 1); }
@@ -176,7 +177,20 @@ template<typename T> ebpps_sketch<T> gen_ebpps(int variant, Rng& r, bool small) 
     case 1: feed(s, 1 + r.below(k), 0); break;                          // fewer than k, c integral
     case 2: feed(s, k + r.below(small ? 200 : 20000), 0); break;         // equal weights: c == k
     case 3: feed(s, 1 + r.below(small ? 200 : 20000), 1); break;         // varied weights: fractional c, partial item
-    default: { ebpps_sketch<T> o(k); feed(o, 1 + r.below(small ? 100 : 5000), 1); feed(s, 1 + r.below(small ? 100 : 5000), 1); s.merge(o); break; }
+    default: {
+      ebpps_sketch<T> o(k); feed(o, 1 + r.below(small ? 100 : 5000), 1); feed(s, 1 + r.below(small ? 100 : 5000), 1); s.merge(o);
+      // Genuine library defect (not a layout question): merge can leave c ahead of the stored sample (an item whose contribution
+      // rounds to 1+eps is kept as a partial item).  Such a sketch cannot be serialized into a readable image (and trips UBSan in
+      // the writer), so it is reported here under its own key and replaced by an un-merged state.
+      const size_t got = s.get_result().size(); const double c = s.get_c();
+      checked();
+      if (double(got) < std::floor(c) || double(got) > std::ceil(c)) {
+        fail("ebpps|merge|sample-size-inconsistent-with-c", "k=" + std::to_string(k) + " n=" + std::to_string(s.get_n()) + " c=" + str(c) + " result size=" + std::to_string(got));
+        count("ebpps_merge_inconsistent_state_replaced");
+        ebpps_sketch<T> s2(k); feed(s2, 1 + r.below(small ? 200 : 20000), 1); return s2;
+      }
+      break;
+    }
   }
   return s;
 }
@@ -295,8 +309,8 @@ template<typename T> void register_tdigest(const std::string& name, int nvariant
         // private state (no public getter): centroids in order, buffered values in order
         std::vector<T> means; std::vector<uint64_t> ws;
         for (const auto& c : s.centroids_) { means.push_back(c.get_mean()); ws.push_back(c.get_weight()); }
-        VF_CHECK(same_bits(means, d.means) && ws == d.weights, "tdigest|image-vs-state|centroids-or-order", c2 + " stored=" + std::to_string(d.means.size()) + " state=" + std::to_string(means.size()));
         if (!d.single) {
+          VF_CHECK(same_bits(means, d.means) && ws == d.weights, "tdigest|image-vs-state|centroids-or-order", c2 + " stored=" + std::to_string(d.means.size()) + " state=" + std::to_string(means.size()));
           std::vector<T> buf(s.buffer_.begin(), s.buffer_.end());
           VF_CHECK(same_bits(buf, d.buffer), "tdigest|image-vs-state|buffer", c2);
           VF_CHECK(d.reverse_merge == s.reverse_merge_, "tdigest|image-vs-state|reverse-merge-flag-bit2", c2);
@@ -481,8 +495,6 @@ template<typename T> void register_density(const std::string& name, int nvariant
         bool same = pts.size() == d.points.size() && w == d.weights;
         for (size_t i = 0; same && i < pts.size(); ++i) same = same_bits(pts[i], d.points[i]);
         VF_CHECK(same, "density|image-vs-api|points-weights-or-order", c2 + " stored=" + std::to_string(d.points.size()) + " api=" + std::to_string(pts.size()));
-        uint64_t tw = 0; for (uint64_t x : d.weights) tw += x;
-        VF_CHECK(tw == d.n, "density|image|sum-of-weights-vs-n", c2 + " sum=" + std::to_string(tw));
       }
       count(d.empty ? "density_empty" : s.is_estimation_mode() ? "density_estimation" : "density_exact");
       sig(mix64(mix64(d.n, d.k), mix64(d.dim, d.num_retained)));
@@ -498,7 +510,9 @@ inline void register_group_c() {
   register_varopt<int64_t>("varopt_int64", 24);
   register_varopt<std::string>("varopt_string", 6);
   register_varopt_union<int64_t>("varopt_union_int64", 10);
-  register_varopt_union<std::string>("varopt_union_string", 5);
+  // (no std::string union: var_opt_union<std::string>::get_result() leaks an item on the marked-item migration path, which is
+  //  C19's finding; items without heap storage keep this monitor about layout)
+  register_varopt_union<double>("varopt_union_double", 5);
   register_ebpps<int64_t>("ebpps_int64", 10);
   register_ebpps<std::string>("ebpps_string", 5);
 #endif
